@@ -124,7 +124,8 @@ func Digest(r io.Reader, hashFunc crypto.Hash) (*CabinetDigest, error) {
 	}
 	_ = binary.Write(dw, binary.LittleEndian, sb)
 	// save the updated header for writing out later
-	patched := bytes.NewBuffer(make([]byte, 0, outHeader.OffsetFiles))
+	patchedSize := binary.Size(outHeader) + reserveHeaderSize + signatureHeaderSize + int(cab.Header.NumFolders)*binary.Size(FolderHeader{})
+	patched := bytes.NewBuffer(make([]byte, 0, patchedSize))
 	_ = binary.Write(patched, binary.LittleEndian, outHeader)
 	_ = binary.Write(patched, binary.LittleEndian, outReserveHeader)
 	_ = binary.Write(patched, binary.LittleEndian, outSigHeader)
